@@ -16,6 +16,108 @@ ORACLES = dict(
 )
 
 
+def budget_monotone(case, res, rep, rng):
+    """C03: deterministic prefixes of one trajectory: the true objective is non-increasing in max_iter
+    and in max_epochs (budgets aligned with the 6-call extrapolation period included)"""
+    import copy
+    import numpy as np
+    if res["out"] is None:
+        return
+    base = dict(case.knobs)
+
+    def run(**kw):
+        c2 = copy.copy(case)
+        c2.knobs = dict(base, **kw)
+        r = solvers.run_acd(c2)
+        if r["out"] is None:
+            return None, c2
+        return solvers.true_obj(c2, r["out"][0]), c2
+    p = case.X.shape[1]
+    w0 = np.zeros(p + case.fit_intercept) if case.w_init is None else np.asarray(case.w_init, float)
+    prev = solvers.true_obj(case, w0)
+    seqs = [[("max_iter", k) for k in (0, 1, 2, 3, 4, 6)],
+            [("max_epochs", e) for e in (1, 2, 5, 6, 7, 8, 12, 13, 14, 20)]]
+    for seq in seqs:
+        last, lastk = prev, "start"
+        for name, k in seq:
+            kw = {name: k}
+            if name == "max_epochs":
+                kw["max_iter"] = 1
+            f, c2 = run(**kw)
+            rep.count("budget:" + name, False, ("bm", id(case), name, k))
+            if f is None:
+                break
+            if not f <= last + 1e-9 * (1 + abs(last)):
+                rep.violate(f"the true objective increases when the budget {name} grows from {lastk} to {k}",
+                            dict(case.signature(site="AndersonCD.solve"), kind="budget-ascent"),
+                            case=c2.describe(), oracle=dict(previous=last, now=f, budget=[name, lastk, k]))
+                break
+            last, lastk = f, k
+
+
+def path_points(case, res, rep, rng):
+    """C05: AndersonCD.path over an alpha grid in arbitrary order, optionally from a user w_init: every
+    point whose stop_crit <= tol meets the certificate of *its own* problem"""
+    import copy
+    import numpy as np
+    from skglm.solvers import AndersonCD
+    from .. import ref
+    from ..impl import compiled_df, compiled_pen, Pen, classify_exc, to_csc
+    if case.pen.kind in ("box", "pos") or case.df.kind == "svc":
+        return
+    n, p = case.X.shape
+    fi = case.fit_intercept
+    alphas = [rng.choice([0.001, 0.01, 0.05, 0.1, 0.3, 1.0, 3.0]) for _ in range(rng.randrange(2, 6))]
+    knobs = dict(case.knobs, max_iter=rng.choice([5, 20, 50]), max_epochs=rng.choice([7, 50, 1000]),
+                 tol=rng.choice([1e-3, 1e-6, 1e-9]))
+    solver = AndersonCD(**knobs)
+    datafit = compiled_df(case.df, case.sw)
+    from ..impl import compiled
+    # path() mutates penalty.alpha: never hand it an object from the harness cache
+    penalty = compiled(case.pen.build(case.wts if case.pen.kind in Pen.WEIGHTED else None))
+    w_init = None
+    mode = rng.choice(["none", "none", "support", "intercept-only"])
+    if mode == "support":
+        w_init = np.array([rng.choice([0.0, 0.5, -1.0, 2.0]) for _ in range(p + fi)])
+        if case.pen.kind in Pen.HAS_POS and case.pen.positive:
+            w_init[:p] = np.abs(w_init[:p])
+    elif mode == "intercept-only" and fi:
+        w_init = np.zeros(p + 1)
+        w_init[-1] = rng.choice([1.0, -2.0, 5.0])
+    Xin = to_csc(case.X) if case.sparse else np.asfortranarray(case.X)
+    try:
+        out = solver.path(Xin, case.y.copy(), datafit, penalty, alphas=np.array(alphas), w_init=w_init)
+    except Exception as e:  # noqa: BLE001
+        rep.violate(f"AndersonCD.path failed on a legitimate grid: {classify_exc(e)}",
+                    dict(case.signature(site="AndersonCD.path"), kind="raises"), case=case.describe(),
+                    impl_output=str(e)[:200], path=dict(alphas=alphas, w_init=None if w_init is None else w_init.tolist()))
+        return
+    _, coefs, stops = out[:3]
+    for t, a in enumerate(alphas):
+        rep.count("path-point", False, ("pp", id(case), t))
+        if not stops[t] <= knobs["tol"]:
+            continue
+        w = coefs[:, t]
+        pen_t = copy.copy(case.pen)
+        pen_t.alpha = a
+        ww, bb = np.asarray(w[:p], float), (float(w[p]) if fi else 0.0)
+        if knobs.get("ws_strategy", "subdiff") != "subdiff":
+            continue
+        v, d = ref.cert_subdiff(case.df, pen_t, case.wts, case.X, case.sw, case.y, ww, bb, fi)
+        slack = 1e-7 * (1 + float(np.max(np.abs(case.X))) * (1 + float(np.max(np.abs(ww)))))
+        if not v <= knobs["tol"] * (1 + 1e-6) + slack:
+            rep.violate("a path point reports stop_crit <= tol but does not meet the certificate of its own problem",
+                        dict(case.signature(site="AndersonCD.path"), kind="path-certificate", w_init=mode),
+                        case=case.describe(), path=dict(alphas=alphas, t=t, knobs=knobs,
+                                                        w_init=None if w_init is None else w_init.tolist()),
+                        impl_output=dict(w=np.asarray(w).tolist(), stop_crit=float(stops[t])),
+                        oracle=dict(violation=v, tol=knobs["tol"]))
+            break
+
+
+EXTRA = dict(budget=budget_monotone, path=path_points)
+
+
 def _worker(args):
     """generate and run a batch of cases in one process (numba compilation is per process)"""
     prop, seed, idx, n_cases, gen_opts, oracles, trace = args
@@ -42,7 +144,10 @@ def _worker(args):
         if trace:
             solvers.check_trace_acd(case, res, rep, lean.drive)
         for o in oracles:
-            ORACLES[o](case, res, rep)
+            if o in ORACLES:
+                ORACLES[o](case, res, rep)
+            else:
+                EXTRA[o](case, res, rep, rng)
         if len(rep.samples) < 2 and nontriv:
             w, obj, stop = res["out"]
             rep.sample(dict(case=dict(datafit=case.df.describe(), penalty=case.pen.describe(), knobs=case.knobs,
